@@ -3,8 +3,9 @@ import TextxVerif.Obj.Nav
 # Parse trees, their spans, and `process_node` (C05 parent links, C06 spans)
 
 `PT` is an Arpeggio parse tree as `parse_tree_to_objgraph.process_node` (model.py 569-787)
-sees it: a `Terminal` (position, length of its value, whether its rule name is `sep`, the
-truthiness of its converted value) or a `NonTerminal` of a root rule, classified as the code
+sees it: a `Terminal` (position, length of its value, whether it was made by the separator
+match of the enclosing repeat — `n.rule is sep_rule`, model.py 817-820 —, the truthiness of its
+converted value) or a `NonTerminal` of a root rule, classified as the code
 classifies it: an assignment (`__asgn_*`, with attribute and operator), or — by the
 `_tx_type` of the rule's class — a common rule (creates an object), an abstract rule or a
 match rule.
